@@ -45,10 +45,10 @@ structure Pom where
   projVersion : Str  -- ${project.version}
 deriving Repr, DecidableEq
 
-/-- `result.PackageUpdate` for Maven: Name = g:a, the `dep.Type` attributes that matter, VersionTo -/
+/-- `result.PackageUpdate` for Maven: Name (expected to be `groupId:artifactId`), the `dep.Type` attributes that
+matter, VersionFrom / VersionTo -/
 structure Upd where
-  g : Str
-  a : Str
+  name : Str
   typ : Str
   cls : Str
   origin : Str       -- dep.MavenDependencyOrigin attribute of the update's Type ("" or "management")
@@ -58,7 +58,25 @@ deriving Repr, DecidableEq
 
 abbrev Key := Str × Str × Str × Str
 def Dep.key (d : Dep) : Key := (d.g, d.a, normTyp d.typ, d.cls)
-def Upd.key (u : Upd) : Key := (u.g, u.a, normTyp u.typ, u.cls)
+/-- `strings.Split(s, ":")` -/
+def splitColon : Str → List Str
+  | [] => [[]]
+  | c :: cs =>
+    if c = ':' then [] :: splitColon cs
+    else match splitColon cs with
+      | p :: ps => (c :: p) :: ps
+      | [] => [[c]]
+
+/-- `substrings := strings.Split(Name, ":"); len(substrings) == 2` -/
+def Upd.ga (u : Upd) : Option (Str × Str) :=
+  match splitColon u.name with
+  | [g, a] => some (g, a)
+  | _ => none
+
+def Upd.key (u : Upd) : Key :=
+  match u.ga with
+  | some (g, a) => (g, a, normTyp u.typ, u.cls)
+  | none => ([], [], normTyp u.typ, u.cls)
 
 /-- entry of `DependencyPatches[origin]`: key, NewRequire, and the map value ("from this project") -/
 structure DPatch where
@@ -80,7 +98,8 @@ def addPatch (ps : List DPatch) (p : DPatch) : List DPatch :=
 
 /-- `OriginalDependency`: first dependency with the update's key and a non-empty version -/
 def originalDependency (u : Upd) (deps : List Dep) : Option Dep :=
-  deps.find? fun d => d.key = u.key && d.ver ≠ []
+  if u.ga.isNone then none                       -- `len(IDs) != 2`: the empty DependencyWithOrigin
+  else deps.find? fun d => d.key = u.key && d.ver ≠ []
 
 def hasPrefix (p s : Str) : Bool := p.isPrefixOf s
 
@@ -104,8 +123,11 @@ def addProps (props : List Prp) (depOrigin : Str) (direct : DPatch) :
       | some preset => if preset ≠ value then { ps with deps := addPatch ps.deps direct } else ps
     addProps props depOrigin direct rest ps'
 
-/-- one iteration of `buildPatches` -/
-def buildPatch1 (pom : Pom) (ps : Patches) (u : Upd) : Patches :=
+/-- one iteration of `buildPatches`; `none` is `addPatch`'s error "invalid Maven name" (the other error return,
+a `dep.Type` carrying both Test and Scope, is not representable here) -/
+def buildPatch1 (pom : Pom) (ps : Patches) (u : Upd) : Option Patches :=
+  if u.ga.isNone then none else
+  some <|
   match originalDependency u pom.deps with
   | none =>
     -- not in the base project: goes to dependencyManagement
@@ -124,7 +146,13 @@ def buildPatch1 (pom : Pom) (ps : Patches) (u : Upd) : Patches :=
       addProps pom.props depOrigin direct (asMap assigns) ps
     | _ => { ps with deps := addPatch ps.deps direct }
 
-def buildPatches (pom : Pom) (us : List Upd) : Patches := us.foldl (buildPatch1 pom) ⟨[], []⟩
+def buildFrom (pom : Pom) : Patches → List Upd → Option Patches
+  | ps, [] => some ps
+  | ps, u :: us => match buildPatch1 pom ps u with
+    | some ps' => buildFrom pom ps' us
+    | none => none                                  -- `return nil, err`
+
+def buildPatches (pom : Pom) (us : List Upd) : Option Patches := buildFrom pom ⟨[], []⟩ us
 
 /-- origin under which `writeProject` looks up property patches for a `<properties>` element -/
 def applyProp (ps : Patches) (p : Prp) : Prp :=
@@ -143,10 +171,11 @@ def applyDep (ps : Patches) (d : Dep) : Dep :=
 def newDeps (ps : Patches) : List Dep :=
   (ps.deps.filter fun p => !p.exist).map fun p => ⟨p.origin, p.key.1, p.key.2.1, p.key.2.2.1, p.key.2.2.2, p.newReq, false⟩
 
-/-- `Write` on the abstract pom -/
-def write (pom : Pom) (us : List Upd) : Pom :=
-  let ps := buildPatches pom us
+def applyPatches (pom : Pom) (ps : Patches) : Pom :=
   { pom with deps := pom.deps.map (applyDep ps) ++ newDeps ps, props := pom.props.map (applyProp ps) }
+
+/-- `Write` on the abstract pom; `none` = an error is returned and no file is written -/
+def write (pom : Pom) (us : List Upd) : Option Pom := (buildPatches pom us).map (applyPatches pom)
 
 /-! ### Read: requirements -/
 
